@@ -3,13 +3,14 @@ C05 — model of how the Caddyfile's `handle_errors [<codes…>] { … }` become
 routes (caddyconfig/httpcaddyfile/builtins.go:parseHandleErrors and the `error_route` step of
 httptype.go), transliterated:
 
-  * every status argument must be 3 bytes long; `Dxx` (D accepted by `strconv.Atoi`) is the class
-    D00..D99, anything else must be accepted by `strconv.Atoi` and is a single code;
+  * every status argument must be 3 bytes long; `Dxx` (D a digit: `strconv.ParseUint`) is the class
+    D00..D99, anything else must be three digits (`strconv.ParseUint`) and is a single code;
   * the classes become range tests joined by ` || ` in argument order, the codes (all of them,
     wherever they stood) one trailing `… in [c1, c2]`;
-  * the block body is parsed as a subroute; if there is a status expression, EVERY route of the
-    body gets `MatcherSetsRaw = [{expression}]` — the matchers the body's directives had are
-    overwritten;
+  * the block body is parsed as a subroute; if there is a status expression, a route of the body
+    without matchers gets `MatcherSetsRaw = [{expression}]`, a route WITH matchers is kept as it is
+    inside a subroute behind a route carrying the expression (before the repair every route got
+    `MatcherSetsRaw = [{expression}]` and lost its own matchers: `blockRoutesOld`);
   * the blocks of a site are sorted with `sort.SliceStable` and a comparator that is not an order
     ("true unless one block is empty or i has no matcher and j has one"), i.e. by Go's insertion
     sort for up to 20 blocks, then their routes are concatenated.
@@ -18,7 +19,7 @@ Body directives here are `respond [<path>] <status>` (a `static_response` behind
 `path` matcher), listed in the order `buildSubroute`'s own sort leaves them in (longer paths first,
 matcher-less last — the harness only sends bodies in that order; that sort is property C16's).
 
-`strconv.Atoi` and Go's insertion sort are the models of property C16 (reused, not re-modelled).
+Digit parsing and Go's insertion sort are the models of property C16 (reused, not re-modelled).
 -/
 import CaddyModel.C05.Model
 import CaddyModel.C16.Args
@@ -47,19 +48,20 @@ deriving DecidableEq, Repr
 
 def endsWithXX (val : Bytes) : Bool := val.drop (val.length - 2) == [120, 120]
 
+/-- `strconv.ParseUint(s, 10, 16)` succeeds on these 1- and 3-byte strings iff they are digits -/
+def isUint (s : Bytes) : Bool := !s.isEmpty && s.all C16.isDigit
+
 /-- the `for _, val := range args` loop; `none` = `h.Errf("bad status value …")` -/
 def parseArgs : List Bytes → StatusArgs → Option StatusArgs
   | [], acc => some acc
   | val :: rest, acc =>
     if val.length != 3 then none
     else if endsWithXX val then
-      match C16.atoi (val.take 1) with
-      | none => none
-      | some _ => parseArgs rest { acc with classes := acc.classes ++ [val.take 1] }
+      if isUint (val.take 1) then parseArgs rest { acc with classes := acc.classes ++ [val.take 1] }
+      else none
     else
-      match C16.atoi val with
-      | none => none
-      | some _ => parseArgs rest { acc with codes := acc.codes ++ [val] }
+      if isUint val then parseArgs rest { acc with codes := acc.codes ++ [val] }
+      else none
 
 def ph : Bytes := str "{http.error.status_code}"
 
@@ -74,16 +76,10 @@ def renderExpr (a : StatusArgs) : Bytes :=
     (a.classes.map (fun d => ph ++ str " >= " ++ d ++ str "00 && " ++ ph ++ str " <= " ++ d ++ str "99")
       ++ (if a.codes.isEmpty then [] else [ph ++ str " in [" ++ joinWith (str ", ") a.codes ++ str "]"]))
 
-/-- CEL has no unary plus: a code written `+40` passes Atoi but the expression does not compile,
-    the adapted config cannot be loaded -/
-def loadable (a : StatusArgs) : Bool := a.codes.all (fun c => c.head? != some 43)
-
 def classRange (d : Bytes) : Nat × Nat :=
-  match C16.atoi d with
-  | some v => (v.toNat * 100, v.toNat * 100 + 99)
-  | none => (1, 0)
+  (C16.digitsVal 0 d * 100, C16.digitsVal 0 d * 100 + 99)
 
-def codeVal (c : Bytes) : Int := (C16.atoi c).getD 0
+def codeVal (c : Bytes) : Int := (C16.digitsVal 0 c : Nat)
 
 /-- the matcher that text denotes -/
 def selMatcher (a : StatusArgs) : Matcher :=
@@ -95,20 +91,32 @@ def dirSets (d : Dir) : List (List Matcher) :=
   | some p => [[.atom .path [p]]]
   | none => []
 
+/-- the route of one body directive, as the code builds it -/
+def dirRoute (a : StatusArgs) (d : Dir) : Route :=
+  if a.classes.isEmpty && a.codes.isEmpty then .mk 0 (dirSets d) [.answer (.lit d.status)] false
+  else match d.path with
+    | none => .mk 0 [[selMatcher a]] [.answer (.lit d.status)] false
+    | some _ => .mk 0 [[selMatcher a]] [.sub [.mk 0 (dirSets d) [.answer (.lit d.status)] false] false []] false
+
 /-- the routes of one block, as the code builds them -/
-def blockRoutes (a : StatusArgs) (dirs : List Dir) : List Route :=
+def blockRoutes (a : StatusArgs) (dirs : List Dir) : List Route := dirs.map (dirRoute a)
+
+/-- … and as the code built them BEFORE the repair: the status expression overwrote the matchers -/
+def blockRoutesOld (a : StatusArgs) (dirs : List Dir) : List Route :=
   dirs.map fun d =>
     .mk 0 (if a.classes.isEmpty && a.codes.isEmpty then dirSets d else [[selMatcher a]])
       [.answer (.lit d.status)] false
 
+/-- the route of one body directive, as the Caddyfile says: status test, then its own matcher -/
+def dirRouteIntended (a : StatusArgs) (d : Dir) : Route :=
+  .mk 0 (if a.classes.isEmpty && a.codes.isEmpty then dirSets d
+         else match d.path with
+           | some p => [[selMatcher a, .atom .path [p]]]
+           | none => [[selMatcher a]])
+    [.answer (.lit d.status)] false
+
 /-- … and as the Caddyfile says: the status test in front of the directive's own matcher -/
-def blockRoutesIntended (a : StatusArgs) (dirs : List Dir) : List Route :=
-  dirs.map fun d =>
-    .mk 0 (if a.classes.isEmpty && a.codes.isEmpty then dirSets d
-           else match d.path with
-             | some p => [[selMatcher a, .atom .path [p]]]
-             | none => [[selMatcher a]])
-      [.answer (.lit d.status)] false
+def blockRoutesIntended (a : StatusArgs) (dirs : List Dir) : List Route := dirs.map (dirRouteIntended a)
 
 def firstHasNoMatcher : List Route → Bool
   | .mk _ sets _ _ :: _ => sets.isEmpty
@@ -122,7 +130,6 @@ def blockLess (i j : List Route) : Bool :=
 
 inductive Adapted where
   | err                         -- the adapter refuses the Caddyfile
-  | unloadable                  -- adapted, but the config does not load
   | routes (rs : List Route)
 
 def parseBlocks : List Block → Option (List (StatusArgs × List Dir))
@@ -137,11 +144,11 @@ def adaptWith (build : StatusArgs → List Dir → List Route) (blocks : List Bl
   match parseBlocks blocks with
   | none => .err
   | some ps =>
-    if !ps.all (fun p => loadable p.1) then .unloadable
-    else .routes ((C16.insertionSort blockLess (ps.map fun p => build p.1 p.2)).flatten)
+    .routes ((C16.insertionSort blockLess (ps.map fun p => build p.1 p.2)).flatten)
 
 def adapt : List Block → Adapted := adaptWith blockRoutes
 def adaptIntended : List Block → Adapted := adaptWith blockRoutesIntended
+def adaptOld : List Block → Adapted := adaptWith blockRoutesOld
 
 /-- a site `error <S>` + these blocks, asked for path `p`: the status answered -/
 def serveAdapted (a : Adapted) (s : Nat) (req : Req) : Option Result :=
